@@ -396,7 +396,12 @@ fn subset_events(
     {
         let cff_out: Option<Vec<u8>> = if bare_cff { Some(bytes.clone()) } else { Tables::from_sfnt(&bytes, 0).and_then(|t| t.get("CFF ").map(|c| c.to_vec())) };
         if let Some(c) = cff_out {
-            match ind::cff_index_sizes(&c) {
+            // the output may be anything: the independent walk is guarded like a call of allsorts
+            let walked = match guarded(|| ind::cff_index_sizes(&c)) {
+                Outcome::Returned(v) => v,
+                Outcome::Panicked(_) => None,
+            };
+            match walked {
                 Some(v) => {
                     for (name, size) in v {
                         if sizes::TARGETS.contains(&size) {
